@@ -22,6 +22,12 @@ CLAIMS = {
          "Commit result class and the autocommit read matrix after every Commit/Rollback are compared with the promise on all enumerated histories with overlapping write sets.", "6 C03"),
  "C05": ("TLC model checking of Reopen.tla (instances x processes x sequence counter) and FsDb.tla with Close/Open at every position + replay in real OS processes",
          "Every script of open/close/write/delete/new-process over 1-2 database instances up to the stated length is enumerated by TLC and executed in fresh child processes over the same directories; in-process Close/Open is inserted at every position of transactional histories.", "6 C05"),
+ "C06": ("controlled-scheduler executions of the real code (all schedules up to a preemption bound + seeded random) validated by TLC against LinTrace.tla: linearizability w.r.t. the L0 promise; deadlock = all actors blocked",
+         "Small concurrent client programs (2-4 clients, autocommit and RU/RC transactions, a collector actor, shared keys) run with every gate of fs_db as a scheduling point; TLC searches a linearisation of each recorded call/return history; a panic or an all-blocked state is a violation. Recorded defect: a read overtaken by cleanup returns ErrNotFound (known finding, recognised by its schedule).", "6 C06"),
+ "C07": ("as C06, programs of 2-3 concurrently committing snapshot transactions with intersecting write sets (plus autocommit writers); the L0 conflict rule under linearisation decides first-committer-wins",
+         "Every interleaving of the commit micro-steps (registry delete, conflict check, sequence draws, publication, unlink) up to the preemption bound is executed on the real code.", "6 C07"),
+ "C08": ("as C06, programs of snapshot readers x multi-key committers x autocommit writers x collector; Begin of a snapshot transaction may linearise after its return (consistency and stability, not recency)",
+         "Reads of every snapshot transaction must be explained by one instant of the linearised commit order. Recorded defects: Begin between the publishing draws of a commit, Begin unregistered while the collector fixes its horizon (known findings, recognised by their schedules).", "6 C08"),
  "C09": ("TLC action property GCInvisible + ReadableHasContent on FsDb.tla, replay of behaviours with the collector at every position; blame by ablation of the GC steps",
          "The collector is enabled at every state of the bounded model; in the real code all reads of all open transactions are compared before/after and for the rest of the behaviour, and a disagreement that disappears when the GC steps are left out is attributed to the collector.", "6 C09"),
  "C11": ("the L1 behaviours emitted by TLC are replayed through external.Open against the real gRPC server and through the inline client; a disagreement only the external run shows is a C11 violation",
@@ -30,6 +36,8 @@ CLAIMS = {
          "Every operation through ended handles is tried at every state of the bounded model; the real result classes and all other readers' reads are compared with the promise. The recorded defect (late writes accepted) is modelled as the named deviation 'latewrite'.", "6 C13"),
  "C14": ("TLC invariant Reclaimed on FsDb.tla + replay of behaviours ending in quiescence with a walk of the storage roots",
          "At every quiescent state (no open transaction, pool drained, one collector pass, or clean reopen) the real roots must hold exactly one content file per readable key.", "6 C14"),
+ "C17": ("TLC invariants on Dirs.tla (bounded counts, every root offers a directory, room is reused) with a limit of 2 + recorded walks of the storage roots of long random histories validated by TLC against DirsTrace.tla with the real limit",
+         "After every API call of histories with hundreds to thousands of writes/deletes/collections/reopenings over 1-3 roots the tree is walked; TLC decides which directories may be created and offered and infers the random choice of directory from the walk.", "6 C17"),
  "C18": ("TLC invariants on VersionList.tla (binary search transcribed branch for branch = declarative last-below; collect rule; mirror = list) + replay of every emitted behaviour on the real core.Transaction",
          "All behaviours of the list state machine (push/pop-front/pop-back/collect) to the stated depth, all 4096 increasing lists over a 12-element domain with all 14 probes, and simulated lists of hundreds to thousands of versions are executed on the real per-key store; results, list content, array mirror, Latest and LastBefore are compared.", "6 C18"),
  "C19": ("layout function in Record.tla, TLC-generated golden vectors and byte strings replayed through the real version-record repository; fixture directory of the pinned revision",
